@@ -29,7 +29,7 @@ BOUNDS = {
     "thorough": {"as": "quick", "plus": "250 and 1001 events per bucket"},
 }
 RULE = (
-    "full product of the configuration dimensions; each case writes a real legacy database, starts the default SQLite store beside it and compares ids, metadata and the multiset of (instant, duration, data) per bucket, the legacy file's bytes, and a second start; "
+    "full product of the configuration dimensions; each case writes a real legacy database, starts the default SQLite store beside it and compares ids, metadata and the multiset of (instant, duration, data) per bucket, the legacy file's bytes, a second start, and the database as a crash at the moment the constructor returns leaves it (files copied before any read; the migration is never run twice, so what is not durable then is lost); "
     "non-trivial = cases with at least one event, or bucket data, or a given name, or a unicode id"
 )
 ASSUMPTIONS = [
@@ -107,7 +107,22 @@ def run_config(root, cfg):
     h0 = sha(legacy_path)
     try:
         new = Datastore(SqliteStorage, testing=testing)
+        # what a process started after a crash at this very moment would find (files copied before any
+        # read through the store, whose reads flush): a migration that is only in the open transaction
+        # is lost for good -- the new database file exists, so the migration never runs again
+        from mc.drivers import crash as K
+
+        npath = [r[2] for r in new.storage_strategy.conn.execute("PRAGMA database_list")][0]
+        img = os.path.join(root, "crash-image.db")
+        K.write_image(K.file_bytes(npath), img)
         got = contents(new)
+        crashed = Datastore(SqliteStorage, testing=testing, filepath=img)
+        try:
+            got_img = contents(crashed)
+        finally:
+            crashed.storage_strategy.conn.close()
+        for sym, det in compare(want, got_img):
+            probs.append(("not-durable-at-first-start:" + sym, "in the database as a crash right after the first start leaves it: " + det))
     except Exception as e:
         return [("migration-raised", f"{type(e).__name__}: {e}")]
     finally:
